@@ -525,11 +525,12 @@ fn tweak_weights(v: &mut [f64], tw: &Tweak) {
 
 type R = (Result<Option<(Vec<usize>, Vec<usize>)>, String>, Vec<usize>);
 
-/// Findings met in THIS process (set by the corpus witnesses, which run first): the random streams
-/// then leave out the inputs that would only trigger the same defect again (a hang costs a whole
-/// watchdog period and three hangs end the run).
+/// A finding met in THIS process (the corpus witnesses run first): the random streams then leave
+/// out the inputs that would only trigger the same defect again (a hang costs a whole watchdog
+/// period and three hangs end the run).  VnBest's float ping-pong was repaired by bff6050 (N9): the
+/// witness passes and nothing is left out unless it comes back.
 static SEEN_VNBEST_FLOAT_HANG: std::sync::atomic::AtomicBool = std::sync::atomic::AtomicBool::new(false);
-static SEEN_ARCSWAP_UNSIGNED_PANIC: std::sync::atomic::AtomicBool = std::sync::atomic::AtomicBool::new(false);
+
 
 fn rotated(c: &Case, j: usize) -> Case {
     let mut ids = c.ids().to_vec();
@@ -1069,6 +1070,22 @@ fn kmeans_exact_sums(c: &Case) -> bool {
     }
 }
 
+/// ArcSwap: does a part of the INPUT weigh more than `max_part_weight` (computed as the code does
+/// for an integer weight type: `from_f64(ideal + max_imbalance * ideal)`, truncated)?  Then – and,
+/// by C05's `cap` theorem, only then – `max_part_weight - part_weight` is negative.
+fn arcswap_part_above_cap(c: &Case) -> bool {
+    let Case::ArcSwap { mi: Some(mi), ids, ws, .. } = c else { return false };
+    let k = (1 + ids.iter().copied().max().unwrap_or(0)).max(2);
+    let mut loads = vec![0i64; k];
+    for (&i, &w) in ids.iter().zip(ws) {
+        loads[i] += w;
+    }
+    let total: i64 = loads.iter().sum();
+    let ideal = total as f64 / k as f64;
+    let cap = (ideal + mi * ideal) as i64;
+    loads.iter().any(|&l| l > cap)
+}
+
 fn fm_cap_scale_exact(c: &Case) -> bool {
     matches!(c, Case::Fm { mi, .. } if *mi == None || *mi == Some(0.0) || *mi == Some(1.0))
 }
@@ -1084,8 +1101,35 @@ fn run_special(ctx: &mut Ctx, c: &Case, tw: Tweak) {
         ctx.count("special:not-run:vnbest-rounded-sums(hang already reported)");
         return;
     }
-    if matches!(c, Case::ArcSwap { .. }) && matches!(tw.plumb, 9 | 10) && SEEN_ARCSWAP_UNSIGNED_PANIC.load(SeqCst) {
-        ctx.count("plumbing:not-run:arcswap-unsigned(panic already reported)");
+    if matches!(c, Case::ArcSwap { .. }) && matches!(tw.plumb, 9 | 10) && arcswap_part_above_cap(c) {
+        // OUTSIDE the contract (weights are i64 or f64, the types the CLI and the C API use): with an
+        // unsigned weight type `max_part_weight - part_weight` underflows when a part of the input
+        // is heavier than the cap.  Run and counted as an observation, never an oracle failure.
+        let (ran, _, _) = run_impl_x(c, false, tw, Ctxk::Install);
+        let out = match &ran {
+            Ran::Ok(ids, _) => {
+                ctx.count("observation:arcswap-unsigned-above-cap:returned");
+                format!("ok {}", join(ids)).trim_end().to_string()
+            }
+            Ran::Err(e) => format!("err {}", e),
+            Ran::Panic(m) => {
+                ctx.count(if m.contains("subtract with overflow") {
+                    "observation:arcswap-unsigned-underflow"
+                } else {
+                    "observation:arcswap-unsigned-above-cap:other-panic"
+                });
+                format!("panic {}", m)
+            }
+            Ran::Hang => "hang".into(),
+        };
+        let idx = ctx.record(
+            format!("sp o {} {} {} {} {} {}", tw.negzero, tw.scale, tw.preset, tw.plumb, tw.coord, format_op(c)),
+            out,
+            false,
+        );
+        if let Ran::Hang = ran {
+            ctx.fail(idx, "hang@arcswap", "watchdog, unsigned weights above the cap".into());
+        }
         return;
     }
     let det = single_run_deterministic(c);
@@ -1326,9 +1370,6 @@ fn run_case_x(ctx: &mut Ctx, c: &Case, mode: Mode) -> Option<Vec<usize>> {
     match (&c, &ran) {
         (Case::Vn { best: true, .. }, Ran::Hang) => {
             SEEN_VNBEST_FLOAT_HANG.store(true, std::sync::atomic::Ordering::SeqCst);
-        }
-        (Case::ArcSwap { .. }, Ran::Panic(m)) if m.contains("subtract with overflow") && matches!(tw.plumb, 9 | 10) => {
-            SEEN_ARCSWAP_UNSIGNED_PANIC.store(true, std::sync::atomic::Ordering::SeqCst);
         }
         _ => {}
     }
